@@ -28,6 +28,9 @@ Own6x4 == <<1, 1, 2, 2, 3, 4>>
 Own6x3 == <<1, 1, 2, 2, 3, 3>>
 Own6x2 == <<1, 1, 1, 2, 2, 2>>
 Own4x4 == <<1, 2, 3, 4>>
+Own12x7 == <<1, 1, 1, 2, 2, 3, 3, 4, 5, 6, 7, 7>>
+Own12x5 == <<1, 1, 1, 2, 2, 2, 3, 3, 4, 4, 5, 5>>
+Own12x6 == <<1, 1, 1, 2, 2, 3, 3, 4, 5, 5, 6, 6>>
 
 Gates == 1..NG
 Mods == 1..NM
@@ -99,19 +102,23 @@ RECURSIVE ReachFrom(_, _)
 ReachFrom(s, R) == LET R2 == R \cup UNION {Succ(s, m) : m \in R} IN IF R2 = R THEN R ELSE ReachFrom(s, R2)
 Reach(s, root) == ReachFrom(s, {root})
 
-(* hop distance inside the node set S; NM + 1 = unreachable *)
-RECURSIVE Layers(_, _, _, _, _)
-Layers(s, S, frontier, seen, d) ==
+(* graph queries over an explicit node set S and edge set E (so that filtered views are covered too) *)
+SuccE(E, m) == {e.to : e \in {x \in E : x.from = m}}
+(* hop distance inside S along E; NM + 1 = unreachable *)
+RECURSIVE LayersE(_, _, _, _, _)
+LayersE(S, E, frontier, seen, d) ==
   IF frontier = {} THEN [m \in S |-> NM + 1]
-  ELSE LET nxt == (UNION {Succ(s, m) \cap S : m \in frontier}) \ seen
-           rest == Layers(s, S, nxt, seen \cup nxt, d + 1) IN
+  ELSE LET nxt == (UNION {SuccE(E, m) \cap S : m \in frontier}) \ seen
+           rest == LayersE(S, E, nxt, seen \cup nxt, d + 1) IN
        [m \in S |-> IF m \in frontier THEN d ELSE rest[m]]
-Dist(s, S, src) == Layers(s, S, {src}, {src}, 0)
-
-Connected(s, S) == \A m \in S : \A n \in S : Dist(s, S, m)[n] <= NM
-Bidirectional(s, S) == \A e \in EdgesOf(s, S) : \E f \in EdgesOf(s, S) : f.from = e.to /\ f.to = e.from
+DistE(S, E, src) == LayersE(S, E, {src}, {src}, 0)
+ConnectedE(S, E) == \A m \in S : \A n \in S : DistE(S, E, m)[n] <= NM
+BidirectionalE(E) == \A e \in E : \E f \in E : f.from = e.to /\ f.to = e.from
 (* acceptable answers of dijkstra(src) for target v: first edges of minimum-hop paths *)
-FirstEdges(s, S, src, v) ==
-  LET d == Dist(s, S, src) IN
-  {e \in EdgesOf(s, S) : e.from = src /\ Dist(s, S, e.to)[v] = d[v] - 1}
+FirstEdgesE(S, E, src, v) == LET d == DistE(S, E, src) IN {e \in E : e.from = src /\ DistE(S, E, e.to)[v] = d[v] - 1}
+
+Dist(s, S, src) == DistE(S, EdgesOf(s, S), src)
+Connected(s, S) == ConnectedE(S, EdgesOf(s, S))
+Bidirectional(s, S) == BidirectionalE(EdgesOf(s, S))
+FirstEdges(s, S, src, v) == FirstEdgesE(S, EdgesOf(s, S), src, v)
 =============================================================================
